@@ -57,6 +57,7 @@ class P1(Predicate):
 
 @dataclass(eq=False)
 class P3(Predicate):
+    is_expensive = True          # a flag the base class declares; overriding it must not change what the predicate means
     a: Any
     b: Any
     c: Any = None
@@ -125,6 +126,17 @@ def install(vm):
         return g(it, v, name)
     vm.spec.opaque_hooks["getattr"] = getattr_
     return made
+
+
+def variable_like_classes(vm):
+    """everything a user can write in argument position that stands for a value of a query: variables, attribute / index /
+    call / flatten mappings of them, nested an()/the() sub-queries -- the concrete subclasses of CanBehaveLikeAVariable"""
+    base = cls(vm, SYM, "CanBehaveLikeAVariable")
+    out = []
+    for c in vm.loader.module(SYM).classes.values():
+        if c is not base and vm.is_subclass(c, base) is True and c.name not in ("DomainMapping", "ResultQuantifier", "Literal"):
+            out.append(c)
+    return sorted(out, key=lambda c: (c.name != "Variable", c.name))
 
 
 def dict_is(d, expected):
@@ -203,21 +215,23 @@ def h_symbolic_function():
         made = install(vm)
         deco = vm.module_global(PRED, "symbolic_function")
         Var = cls(vm, SYM, "Variable")
-        for n in range(1, 4):
+        kinds = variable_like_classes(vm)
+        ctx.check("symbolic_function::argument-kinds-enumerated", z3.BoolVal(len(kinds) >= 6 and kinds[0] is Var), detail=repr([c.name for c in kinds]))
+        for n, VarLike in [(n_, Var) for n_ in range(1, 4)] + [(2, c_) for c_ in kinds[1:]]:
             params = [f"p{i}" for i in range(n)]
             for p, kw in splits(n):
                 given = list(range(p)) + kw
-                for var_at in [None] + given:
+                for var_at in ([None] if VarLike is Var else []) + given:
                     fn = UserFn("userfn", params)
                     wrapper = vm.call(deco, [fn], {})
                     vals = [UserVal(f"a{i}") for i in range(n)]
                     if var_at is not None:
-                        vals[var_at] = vm.alloc(Var, {"_id_": 100 + var_at}, tag="query-variable")
+                        vals[var_at] = vm.alloc(VarLike, {"_id_": 100 + var_at}, tag="query-" + VarLike.name)
                     args = vals[:p]
                     kwargs = {params[i]: vals[i] for i in kw}
                     del made[:]
                     r = vm.call(wrapper, args, kwargs)
-                    shape = f"n={n} positional={p} keyword={kw} variable_at={var_at}"
+                    shape = f"n={n} positional={p} keyword={kw} variable_at={var_at} ({VarLike.name})"
                     if var_at is None:
                         ok = (len(fn.calls) == 1 and len(fn.calls[0][0]) == p and all(x is y for x, y in zip(fn.calls[0][0], args))
                               and set(fn.calls[0][1]) == set(kwargs) and all(fn.calls[0][1][k] is kwargs[k] for k in kwargs)
@@ -251,20 +265,20 @@ def h_predicate_new():
         for (mod, cname, fields, required) in ((PRED, "HasType", ["variable", "types_"], 2), ("pyvc_synth_c12", "P1", ["a"], 1),
                                                ("pyvc_synth_c12", "P3", ["a", "b", "c"], 2), (PRED, "HasTypes", ["variable", "types_"], 2)):
             C = cls(vm, mod, cname)
-            for n in range(required, len(fields) + 1):
+            for n, VarLike in [(n_, Var) for n_ in range(required, len(fields) + 1)] + ([(2, c_) for c_ in variable_like_classes(vm)[1:]] if cname == "P3" else []):
                 for p, kw in splits(n):
                     if p + len(kw) != n:
                         continue
-                    for var_at in [None] + list(range(n)):
+                    for var_at in ([None] if VarLike is Var else []) + list(range(n)):
                         vals = [UserVal(f"a{i}") for i in range(n)]
                         if cname.startswith("HasType"):
                             vals[1] = cls(vm, SYM, "Variable")   # a type to test against
                         if var_at is not None:
-                            vals[var_at] = vm.alloc(Var, {"_id_": 200 + var_at}, tag="query-variable")
+                            vals[var_at] = vm.alloc(VarLike, {"_id_": 200 + var_at}, tag="query-" + VarLike.name)
                         args = vals[:p]
                         kwargs = {fields[i]: vals[i] for i in kw}
                         del made[:]
-                        shape = f"{cname} n={n} positional={p} keyword={kw} variable_at={var_at}"
+                        shape = f"{cname} n={n} positional={p} keyword={kw} variable_at={var_at} ({VarLike.name})"
                         r = vm.call(C, args, kwargs)
                         if var_at is None:
                             ok = isinstance(r, Obj) and r.cls is C and not made and all(r.fields.get(fields[i]) is vals[i] for i in range(n))
@@ -333,6 +347,10 @@ def h_instantiate(kind, n_children):
         else:
             typ = cls(vm, "pyvc_synth_c12", {1: "P1", 2: "P3", 3: "P3"}[n_children])
             ptype = vm._getattr(cls(vm, "krrood.entity_query_language.enums", "PredicateType"), "SubClassOfPredicate")
+        # state that outlives one use of the predicate (class-level containers of the expression classes: registries, memo
+        # tables) is ARBITRARY when this use starts: other nodes, other queries, earlier bindings may have filled it
+        from .lib import arbitrary_class_state
+        arbitrary_class_state(vm, Var, lambda it2: UserVal("something-remembered-from-elsewhere"))
         me = vm.alloc(Var, {"_id_": 5, "_type_": typ, "_predicate_type_": ptype, "_child_vars_": make_dict(list(children.items())),
                             "_is_inferred_": False}, tag="predicate-variable")
         # consistent truth value per user object
